@@ -155,7 +155,7 @@ def generate(rng, tier):
 
     # ---- 5. multi-word divisors: a = q*b + r, size classes around THRESHOLD_SIMPLE on BOTH the
     #         divisor length and the quotient length; q's top word all ones; r in {0,1,b-1,..}
-    n5 = 1400 if quick else 80000
+    n5 = 1400 if quick else 50000      # round 6: thinned 80000 -> 50000 (thorough budget; random stream only)
     for i in range(n5):
         nb = rng.choice([3, 3, 4, 5] + sz)
         nq = rng.choice([0, 1, 1, 2, 3] + sz)
@@ -237,7 +237,7 @@ def generate(rng, tier):
 
     # ---- 11. thorough: long operands and Burnikel–Ziegler sizes (divisor > 32 and quotient > 32 words)
     if not quick:
-        for i in range(4000):
+        for i in range(2000):              # round 6: thinned 4000 -> 2000 (62% of the tier's CPU time was here)
             nb = rng.choice([33, 34, 35, 40, 64, 65, 100, 128, 129, 200, 256, 500, 1000, 1500])
             nq = rng.choice([33, 34, 64, 65, 100, 129, 300, 1000, 1500])
             if nb + nq > 3000:
@@ -245,7 +245,7 @@ def generate(rng, tier):
             b = divisor(rng, nb)
             a = quotient(rng, nq) * b + remainder(rng, b)
             yield emit(rng, any_form(rng), a, b)
-        for i in range(1000):
+        for i in range(500):               # round 6: thinned 1000 -> 500
             na = rng.choice([1000, 2000, 3000])
             nb = rng.choice([1, 2, 3, 5, 31, 32, 33, 34, 100, 999, 1499])
             a = nat_pattern(rng, na, rng.choice(PATTERNS))
@@ -411,7 +411,10 @@ _C02 = ["truncating_conventions", "euclidean_conventions",
         "plumbing_division_identity", "ibig_is_multiple_of_const_exact",
         "div_rem_in_place_choice", "bz_entry_guard", "bz_same_len_guard", "bz_small_quotient_guards",
         "bz_small_quotient_recursive", "simple_entry_guards", "hw_estimate_guard", "hw_addback_guard",
-        "div_by_word_guards", "rem_by_word_dword_guards", "div_by_dword_guards", "unshifted_carry_guard"]
+        "div_by_word_guards", "rem_by_word_dword_guards", "div_by_dword_guards", "unshifted_carry_guard",
+        # round 6: the arms of div_const::repr regenerated (Gen/DivPlumbing.constReprTable) and tied to divConst / remConst / divRemConst
+        "const_repr_table_arms", "const_repr_table_complete", "constExpectedArms_eval", "const_repr_every_impl_eq_model",
+        "rem_large_large_guard"]
 _GEN = ["ibig_div_exact", "ibig_rem_exact", "ibig_divrem_exact", "ibig_div_euclid_exact",
         "ibig_rem_euclid_exact", "ibig_divrem_euclid_exact", "ubig_ibig_rem_exact", "ubig_ibig_divrem_exact"]
 THEOREMS = ["Dashu.Props.C02." + t for t in _C02] + ["Dashu.Props.GenInt." + t for t in _GEN]
@@ -436,12 +439,12 @@ REFINED = [
     "base/src/ring/div_rem.rs impl_div_rem_ops_prim (DivRem, DivRemAssign, DivRemEuclid with its sign fix-up and overflow checks; DivEuclid/RemEuclid forward to std) for every machine integer type: zero divisor and MIN / -1 panic, otherwise tdiv/tmod resp. Euclidean quotient/remainder, all in range",
     "div::memory_requirement_exact / divide_conquer::memory_requirement_exact: sufficient for every scratch allocation of div_rem_in_place, all operand lengths (memory.rs 'not enough memory allocated' unreachable)",
     "num-modular 0.6 Normalized2by1Divisor::{invert_word, div_rem_1by1, div_rem_2by1} and Normalized3by2Divisor::{invert_double_word, div_rem_2by2, div_rem_3by2, div_rem_4by2} (Moeller-Granlund Algorithms 4, 5, 6 with every wrapping operation) = floor division under the crate's preconditions; the division model's contract parameters are discharged (nm_contracts_discharged)",
-    "ConstDivisor::new (single/double/large, zero -> divide-by-zero panic), value(); div_rem_small_single, div_rem_small_double, ConstSingleDivisor::{rem_dword, rem_large}, ConstDoubleDivisor::{rem_dword, rem_large}; Div / Rem / DivRem<&ConstDivisor> for TypedRepr, IBig forms",
+    "ConstDivisor::new (single/double/large, zero -> divide-by-zero panic), value(); div_rem_small_single, div_rem_small_double, ConstSingleDivisor::{rem_dword, rem_large}, ConstDoubleDivisor::{rem_dword, rem_large}; Div / Rem / DivRem<&ConstDivisor> for TypedRepr, IBig forms. Tie A (round 6): the arms of all four `impl Div / Rem / DivRem<&ConstDivisorRepr> for TypedRepr / TypedReprRef` of div_const::repr (pattern order; the body of each of the 24 arms classified token for token: callee, Repr::from_word / from_dword / from_buffer / zero, the `>> shift`, the `buffer.len() < div_len` guard, erase_front / push_resizing / truncate / shift-back with debug_assert_zero!) and the body of `fn rem_large_large` with its `lhs.len() >= modulus.len()` condition are REGENERATED from integer/src/div_const.rs (Gen/DivPlumbing.constReprTable, remLargeLargeShape, guard_rem_large_large_reduce) and proved, impl by impl and for all dividends and prepared divisors, equal to the model's divConst / remConst / divRemConst (const_repr_every_impl_eq_model, rem_large_large_guard)",
 ]
 FRONTIER = [
     "operator-trait plumbing, what remains outside the theorem: (a) that the macro-expanded listing read by vlib/divplumb.py is what rustc compiles (the expansion is rustc's own -Zunpretty=expanded output; a body outside the recognised shapes becomes Core.other and fails closed) and the meaning given to the recognised shapes by DivPlumbing.evalCore (`UBig(L.div(R))` = divRepr etc.) - tied by the correspondence: the harness evaluates all ownership/assign forms and prints forms-disagree on a difference; (b) by-value vs by-reference operands are the same model value (ownership has no semantic content in the model; buffer reuse is C17's)",
     "primitive-operand forms of div_ops.rs (impl_binop_with_primitive / impl_div_by_primitive / impl_divrem_with_primitive: UBig|IBig op uN|iN, uN|iN / UBig|IBig, Rem -> primitive) are not driven by C02: each is `big.op(Big::from(prim)).try_into().unwrap()`, i.e. the big-operand form proved here followed by a checked conversion; C15 owns them (drives every such form, Props/C15 primForm theorems say exactly when the conversion succeeds, two findings about them are recorded under C15)",
-    "the size-class arms of `Div / Rem / DivRem<&ConstDivisorRepr> for TypedRepr / TypedReprRef` (div_const.rs mod repr; inline code per arm) are hand-mirrored (divConst / remConst / divRemConst), proved = plain division and compared on every run, but not regenerated (unlike the arms of div_ops::repr)",
+    "div_const::repr, what remains outside the regenerated arm table: the MEANING given to each recognised arm body (DivPlumbing.CAct.eval: e.g. `erase_front(div_len); push_resizing(q_top)` = drop n ++ [qTop]) is hand-written, tied to the code by the correspondence only; the bodies of div_rem_small_single / div_rem_small_double and of ConstSingleDivisor / ConstDoubleDivisor::{rem_dword, rem_large} are hand-mirrored (proved = plain division, compared on every run) but not regenerated",
     "ConstLargeDivisor::rem_large / rem_repr and the Reducer impls belong to C13 and are not modelled here",
     "primitive.rs / math.rs word helpers (double_word, split_dword, extend_word, shrink_dword, highest_dword, lowest_dword, split_hi_word) are inlined as Nat arithmetic; std intrinsics (leading_zeros, trailing_zeros, is_power_of_two, <<, >>, &, |, checked_div) and, for the primitive kernels, Rust's `/` `%` and std div_euclid / rem_euclid are taken at their documented meaning (see ASSUMPTIONS) - no executable Rust-semantics model exists below these, so nothing can carry them further",
     "the allocator side of MemoryAllocation::new (alloc returning null, size > isize::MAX) is C17's; C02 proves only that the requested scratch size suffices",
@@ -474,7 +477,7 @@ LEVEL_TEXT = ("Machine-checked Lean 4 theorems, for every word size W >= 1 and e
               "loops with their power-of-two shortcuts, Knuth algorithm D with normalisation, top-word correction and quotient carry, the size-class dispatch, the zero-divisor panic "
               "in every form, the truncating and Euclidean sign conventions, is_multiple_of, and ConstDivisor in all three classes) computes exactly a = q*b + r with the documented "
               "conventions; the hand-written model is tied to /repo on every run by differential execution of model and real code over structured operands around every branch condition, "
-              "all call forms, and the sign tables and the operator-trait plumbing table (which dispatch function / sign table / operand accessor each of the 108 impls uses) additionally by regeneration from the (macro-expanded) source, with a theorem over every regenerated entry; the size-class arms of div_ops::repr and 17 branch / assert conditions of the division kernels are regenerated too, with theorems that the model functions branch exactly on them. The divide-and-conquer algorithm (Burnikel-Ziegler, divisor and quotient both > 32 words) "
+              "all call forms, and the sign tables and the operator-trait plumbing table (which dispatch function / sign table / operand accessor each of the 108 impls uses) additionally by regeneration from the (macro-expanded) source, with a theorem over every regenerated entry; the size-class arms of div_ops::repr and of div_const::repr (division through a prepared ConstDivisor) and 18 branch / assert conditions of the division kernels are regenerated too, with theorems that the model functions branch exactly on them. The divide-and-conquer algorithm (Burnikel-Ziegler, divisor and quotient both > 32 words) "
               "is refined too; the multiplication it calls is C01's mirrored and proved kernel (those theorems hold for W >= 4).")
 LEVEL_NOTE = ("Trusted: Lean kernel; axioms propext/Classical.choice/Quot.sound; std bit intrinsics (leading_zeros, is_power_of_two, shifts) at their documented meaning; num-modular's dividers are "
               "mirrored (Algorithms 4/5/6) and proved, the mirror being tied to the crate by direct differential calls incl. exhaustive 8-bit sweeps; the correspondence harness and generators (sampling) for the tie "
